@@ -21,9 +21,9 @@ NPROC = min(16, os.cpu_count() or 4)
 
 # property -> engine plan
 PLAN = {
-    "C01": dict(engine="vsim", level="exploration"),
+    "C01": dict(engine="vsim", level="exploration", extra=["vproc"]),
     "C02": dict(engine="vsim", level="exploration"),
-    "C03": dict(engine="vsim", level="exploration"),
+    "C03": dict(engine="vsim", level="exploration", extra=["vfront"]),
     "C04": dict(engine="vsim", level="exploration"),
     "C05": dict(engine="vsim", level="exploration"),
     "C06": dict(engine="vsim", level="fault_enumeration", extra=["vproc"]),
